@@ -423,6 +423,15 @@ func (s *scope) createInstance(descriptor *Descriptor) (any, error) {
 		}
 	}
 
+	// The analysis is cached per code pointer, which closures, method values and
+	// reflect.MakeFunc functions share: always invoke this descriptor's own
+	// constructor value, not the one that happened to be analyzed first.
+	if info.IsFunc {
+		bound := *info
+		bound.Value = descriptor.Constructor
+		info = &bound
+	}
+
 	// Get cached invoker (reduces allocations)
 	invoker := s.rootProvider.analyzer.GetInvoker()
 
